@@ -556,18 +556,78 @@ class Gen:
             order = [r.randrange(positional) for _ in range(positional)]
         pi = 0
         bad_field = r.randrange(n_fields) if n_fields and fault == 'spec' else None
+        seq = []          # anonymous style: the operands in the order str.format takes them
+        small = [n for n, v in vars_.items()
+                 if isinstance(v, int) and not isinstance(v, bool) and 1 <= v <= 12]
+
+        def compound(v):
+            """an attribute / index part for a field whose value is v, and what it selects"""
+            if isinstance(v, (int, float)) and r.random() < 0.3:
+                part = r.choice(['.real', '.real', '.imag'])
+                return part, (v.real if part == '.real' else v.imag)
+            if isinstance(v, str) and v and r.random() < 0.3:
+                return '[0]', v[0]
+            return '', v
+
+        def nested(v, ref):
+            """a format spec with replacement fields nested in it (width, precision, fill) for the
+            value v; ref(op) makes a positional reference to a new operand (text inside braces)"""
+            def src(op, val):
+                if isinstance(val, int) and small and r.random() < 0.4:
+                    n = r.choice([m for m in small])
+                    return '{' + n + '}', vars_[n]
+                return '{' + ref(op) + '}', val
+            if isinstance(v, bool) or v is None:
+                return None
+            w = r.choice([1, 3, 6, 9])
+            parts = []
+            if r.random() < 0.3:
+                fill = r.choice(['*', '.', '_', '0'])
+                parts.append(src(('str', fill), fill)[0])
+                parts.append(r.choice('<>^'))
+            elif r.random() < 0.6:
+                parts.append(r.choice(['<', '>', '^', '']))
+            parts.append(src(('int', w), w)[0])
+            if isinstance(v, float) or (isinstance(v, int) and r.random() < 0.2):
+                if r.random() < 0.6:
+                    parts.append('.' + src(('int', r.choice([0, 1, 3])), 0)[0] + 'f')
+            elif isinstance(v, str) and r.random() < 0.3:
+                parts.append('.' + src(('int', r.choice([1, 2])), 0)[0])
+            return ''.join(parts)
+
         for fi, kind in enumerate(kinds):
             if r.random() < 0.8:
                 pieces.append(r.choice(TEXTS))
+            extra = []        # operands of the fields nested in this field's spec
+
+            def ref(op):
+                if style == 'numbered':
+                    ops.append(op)
+                    return str(len(ops) - 1)
+                extra.append(op)
+                return ''
             if kind == 'named':
                 n = r.choice(names)
                 v = regs[n] if n in regs and n not in vars_ else vars_.get(n, regs.get(n))
-                pieces.append(self.field(n, v, fi == bad_field))
+                name = n
             else:
                 idx = order[pi]
                 name = str(idx) if style == 'numbered' else ''
-                pieces.append(self.field(name, vals[idx], fi == bad_field))
+                v = vals[idx]
+                if style != 'numbered':
+                    seq.append(ops[idx])
                 pi += 1
+            part, sel = compound(v) if fi != bad_field else ('', v)
+            spec = nested(sel, ref) if fi != bad_field and r.random() < 0.25 else None
+            if spec is not None:
+                pieces.append('{' + name + part + ':' + spec + '}')
+            elif part:
+                pieces.append(self.field(name + part, sel, False))
+            else:
+                pieces.append(self.field(name, v, fi == bad_field))
+            seq.extend(extra)
+        if style != 'numbered':
+            ops = seq
         if r.random() < 0.7 or not pieces:
             pieces.append(r.choice(TEXTS + ['\\n', '\\n']))
         fmt = ''.join(pieces)
@@ -758,7 +818,12 @@ def tally(features, s):
         fields = _FIELD.findall(fmt)
         if not fields:
             bump('format:no-field')
+        if re.search(r':[^{}]*\{', fmt):
+            bump('field:nested-in-spec')
         for name, conv, spec in fields:
+            if '.' in name or '[' in name:
+                bump('field:compound-name')
+                name = re.split(r'[.\[]', name)[0]
             bump('field:' + ('anonymous' if name == '' else 'numbered' if name.isdigit() else 'named'))
             if conv:
                 bump('field:conversion')
@@ -790,7 +855,7 @@ def out_instructions(program):
 
 # ================================================================= main
 def main():
-    chk = Check('C19')
+    chk = Check('C19', extra_modules=['Bardolph.Props.C19Heads'])
     replay_path = None
     argv = sys.argv[1:]
     for i, a in enumerate(argv):
@@ -998,24 +1063,42 @@ def main():
         requests.append(('out.parse', [s], real_parse(s), 'parse', s))
         n_parse += 1
 
+    from bardolph.lib.format_fields import field_names
+
     def real_count(s):
-        """io_parser.printf's count and VmIo._printf's names, as those two functions compute them"""
+        """io_parser.printf's count and VmIo._printf's names, as those two functions compute them
+        (both walk `field_names`: the first part of every field's name, nested fields included)"""
+        def pos(h):
+            return h == '' or isinstance(h, int)
         try:
-            a = sum(1 for f in fm.parse(s) if f[1] is not None and (len(f[1]) == 0 or f[1].isdecimal()))
-            b = [f[1] for f in fm.parse(s) if f[1] is not None and len(f[1]) > 0 and not f[1].isdecimal()]
+            h1 = list(field_names(s))
             s2 = s.replace('\\n', '\n')
-            c = [f[1] for f in fm.parse(s2) if f[1] is not None and len(f[1]) > 0 and not f[1].isdecimal()]
+            h2 = list(field_names(s2))
         except ValueError:
             return 'err'
-        d = sum(1 for f in fm.parse(s2) if f[1] is not None and (len(f[1]) == 0 or f[1].isdecimal()))
-        return '{} {} | {} {}'.format(a, ','.join(map(inner_encode, b)), d,
-                                      ','.join(map(inner_encode, c)))
+        return '{} {} | {} {}'.format(
+            sum(1 for h in h1 if pos(h)), ','.join(inner_encode(h) for h in h1 if not pos(h)),
+            sum(1 for h in h2 if pos(h)), ','.join(inner_encode(h) for h in h2 if not pos(h)))
     count_alpha = '{}\\n0a:'
     for n in range(0, 6 if not T else 7):
         for tup in itertools.product(count_alpha, repeat=n):
             s = ''.join(tup)
             requests.append(('out.count', [s], real_count(s), 'count', s))
             n_parse += 1
+    # compound names, fields nested in specs, numbers beyond PY_SSIZE_T_MAX
+    count_rich = '{}:.[]09a!\\n>'
+    fixed_counts = ['{x.real}', '{s[0]}', '{0.real}', '{.imag}', '{[0]}', '{:>{}}', '{:>{w}}',
+                    '{:{}.{}f}', '{a:{b:{c}}}', '{:{!}}', '{:{a{}}}', '{:{{}}}', '{0[{}]}',
+                    '{9223372036854775807}', '{9223372036854775808}', '{' + '9' * 30 + '}',
+                    '{:{99999999999999999999}}', '{007}', '{0x}', '{a.b[c].d:{e.f}}', '{!r:{}}',
+                    '{x.real\\n}', '{:\\n{}}', '{:{\\n}}']
+    for s in fixed_counts:
+        requests.append(('out.count', [s], real_count(s), 'count', s))
+        n_parse += 1
+    for _ in range(6000 if not T else 60000):
+        s = ''.join(rng.choice(count_rich) for _ in range(rng.randint(1, 12)))
+        requests.append(('out.count', [s], real_count(s), 'count', s))
+        n_parse += 1
     chk.count(n_parse)
     stats['parse_strings'] = n_parse
     stats['parse_exhaustive_len'] = L
@@ -1161,7 +1244,7 @@ def main():
          None, 'stdout-bytes:loop-or-routine'),
         ('define f begin print 1 return 2 end\nprint [f]\nprintf "{} {}" [f] [f]\n',
          '1 2 1 1 2 2\n', 'stdout-bytes:loop-or-routine'),
-        # field forms of str.format the compiler/VM do not handle (open findings)
+        # compound field names and fields nested in format specs (defects repaired in c8b9962)
         ('printf "{:>{}}|" 5 6\n', '     5|\n', 'printf-nested-field'),
         ('assign w 6\nprintf "{:>{w}}|" 5\n', '     5|\n', 'printf-nested-field'),
         ('assign x 5\nprintf "{x.real}|{x.imag}"\n', '5|0\n', 'printf-compound-field-name'),
